@@ -64,7 +64,7 @@ def run_d2r(case):
 
 @st.composite
 def r2n_cases(draw, tier):
-    syms = draw(st.sampled_from([["a"], ["a", "b"], ["a", "b", "c"], ["0", "1"]]))
+    syms = draw(st.sampled_from([["a"], ["a", "b"], ["a", "b", "c"], ["0", "1"], ["a", "_"], ["e", "ε"]]))      # legal symbols that look like epsilon symbols
     return {"re": draw(GR.trees(syms, max_leaves=12))}
 
 
